@@ -29,7 +29,7 @@ PROPERTIES = {
         assumptions=["bytes on the wire for multipart are httpx's", "interleavings inside httpx are outside this family"],
     ),
     "C06": dict(
-        modules=["contracts.c06_input_types", "contracts.c06_defaults", "contracts.c18_names", "contracts.c09_pruning", "contracts.c04_modules"],
+        modules=["contracts.c06_input_types", "contracts.c06_defaults", "contracts.c18_names", "contracts.c09_pruning", "contracts.c04_modules", "contracts.c11_clients"],
         bounded=[_bounded.lazy("contracts.e2e_scalars", "bounded_scalar_positions"), _bounded.lazy("contracts.c09_pruning", "bounded_pruning"), _bounded.lazy("contracts.e2e_variables", "bounded_variables"),
                  _bounded.lazy("contracts.c11_multipart", "bounded_agreement"), _bounded.lazy("contracts.e2e_fuzz_inputs", "bounded_generated_inputs")],
         explanation="input type translator and default-literal translator against the image/coercion spec functions, by structural induction",
@@ -43,14 +43,14 @@ PROPERTIES = {
         assumptions=["rejection of corrupted payloads by the emitted annotations is pydantic's (assumed contract)"],
     ),
     "C07": dict(
-        modules=["contracts.c07_scalars", "contracts.c05_result_fields", "contracts.c06_input_types"],
+        modules=["contracts.c07_scalars", "contracts.c05_result_fields", "contracts.c06_input_types", "contracts.c14_builder"],
         bounded=[_bounded.lazy("contracts.c11_multipart", "bounded_wire"), _bounded.lazy("contracts.e2e_scalars", "bounded_scalar_positions"),
                  _bounded.lazy("contracts.e2e_pruning", "bounded_pruned_packages")],
         explanation="scalar annotation placement through the C05/C06 translator contracts, top-level variable serialisation",
         assumptions=["pydantic runs BeforeValidator/PlainSerializer once per non-null occurrence under Optional/List (assumed)"],
     ),
     "C18": dict(
-        modules=["contracts.c18_names", "contracts.c04_modules", "contracts.c11_clients"],
+        modules=["contracts.c18_names", "contracts.c04_modules", "contracts.c11_clients", "contracts.c14_builder"],
         bounded=[_bounded.lazy("contracts.c18_names", "bounded_names"), _bounded.lazy("contracts.c18_names", "bounded_pairs"),
                  _bounded.lazy("contracts.c18_names", "bounded_wire_names"),
                  _bounded.lazy("contracts.e2e_variables", "bounded_variables"), _bounded.lazy("contracts.e2e_builder", "bounded_builder"),
@@ -98,7 +98,8 @@ PROPERTIES = {
     "C08": dict(
         modules=["contracts.c08_fragments", "contracts.c10_order", "contracts.c01_inline", "contracts.c01_subtype", "contracts.c01_resolve"],
         bounded=[_bounded.lazy("contracts.c08_fragments", "bounded_fragment_order"), _bounded.lazy("contracts.e2e_fragments", "bounded_scenarios"),
-                 _bounded.lazy("contracts.e2e_plugins", "bounded_plugins")],
+                 _bounded.lazy("contracts.e2e_plugins", "bounded_plugins"), _bounded.lazy("contracts.e2e_results", "bounded_results"),
+                 _bounded.lazy("contracts.e2e_fuzz", "bounded_generated_operations")],
         explanation="@mixin argument parsing and base/import bookkeeping under contract; fragment class ordering by exhaustive bounded stand-in",
         assumptions=["that a class listed as base validates the same payload is pydantic's inheritance (assumed)"],
     ),
